@@ -1405,6 +1405,50 @@ def r10b_if_continue(toks, counts):
     return toks
 
 
+def r20_rposition(toks, counts, type_name):
+    """`E.iter().enumerate().rev().find(|(_, X)| X.M()).map(|(I, _)| I)` -> `rposition_by(&E, TYPE::M)`:
+    the index of the last element satisfying the method predicate M (TYPE is given by the region option R20=TYPE)"""
+    pat = ['.', 'iter', '(', ')', '.', 'enumerate', '(', ')', '.', 'rev', '(', ')', '.', 'find', '(', '|', '(', '_', ',', None, ')', '|',
+           None, '.', None, '(', ')', ')', '.', 'map', '(', '|', '(', None, ',', '_', ')', '|', None, ')']
+    out = []
+    i = 0
+    n = len(toks)
+    while i < n:
+        t = toks[i]
+        if is_p(t, '.'):
+            j = i
+            ok = True
+            names = []
+            for want in pat:
+                j = next_sig(toks, j)
+                if j >= n:
+                    ok = False
+                    break
+                if want is None:
+                    if toks[j][0] != 'id':
+                        ok = False
+                        break
+                    names.append(toks[j][1])
+                elif toks[j][1] != want:
+                    ok = False
+                    break
+                j += 1
+            if ok and names[0] == names[1] and names[3] == names[4]:
+                end = len(out) - 1
+                start = _postfix_start(out, end)
+                recv = out[start:]
+                while recv and recv[-1][0] == 'ws':
+                    recv.pop()
+                del out[start:]
+                out += [('id', 'rposition_by'), ('p', '('), ('p', '&')] + recv + [('p', ','), ('ws', ' '), ('id', type_name), ('p', ':'), ('p', ':'), ('id', names[2]), ('p', ')')]
+                counts['R20'] = counts.get('R20', 0) + 1
+                i = j
+                continue
+        out.append(t)
+        i += 1
+    return out
+
+
 def r9_enumerate(toks, counts):
     """`for (i, P) in E.enumerate() { B }`            ->  `{ let mut i: usize = 0; for P in E { B i += 1; } }`
        `for (i, P) in E.enumerate().skip(N) { B }`    ->  same with the body guarded by `if i >= N { B }`
@@ -1548,6 +1592,8 @@ def extract_region(src_text, path, opts=None):
                 item = r17_flatten_options(item, counts)
             if 'R19' in opts.get('rules', ()):
                 item = r19_box_as_mut(item, counts)
+            if 'R20' in opts.get('rules', ()):
+                item = r20_rposition(item, counts, opts.get('r20_type', 'Self'))
             if 'R22' in opts.get('rules', ()):
                 item = r22_asref_str_params(item, counts)
             if 'R23' in opts.get('rules', ()):
